@@ -200,7 +200,7 @@ class CoAPParser(HeaderParser):
 
         header_descriptor:HeaderDescriptor = HeaderDescriptor(
             id= COAP_HEADER_ID,
-            length= 4*8 + token_length_int*8 +  option_bits_consumed,
+            length= 4*8 + token.length +  option_bits_consumed,
             fields= header_fields + options_fields
         )
         return header_descriptor
@@ -343,6 +343,8 @@ def _parse_options(buffer: Buffer, mode:CoAPOptionMode) -> Tuple[List[FieldDescr
             option_field_positions[CoAPFields.OPTION_VALUE] += 1
 
         option_offset += option_value_length
+        if option_offset > option_bytes.length:
+            raise ParserError(buffer=option_bytes, message=f'truncated option: {option_bytes.length} < {option_offset}')
         cursor += option_offset
 
         if mode is CoAPOptionMode.SYNTACTIC:
